@@ -367,9 +367,20 @@ func (c *clientImpl) listFromShard(ctx context.Context, minKeyInclusive string, 
 		SecondaryIndexName: secondaryIndexName,
 	}
 
+	// The receiver may stop reading (it does after the first error) and cancel the context:
+	// never stay blocked on the channel after that
+	send := func(result ListResult) bool {
+		select {
+		case ch <- result:
+			return true
+		case <-ctx.Done():
+			return false
+		}
+	}
+
 	client, err := c.executor.ExecuteList(ctx, request)
 	if err != nil {
-		ch <- ListResult{Err: err}
+		send(ListResult{Err: err})
 		return
 	}
 
@@ -380,11 +391,13 @@ func (c *clientImpl) listFromShard(ctx context.Context, minKeyInclusive string, 
 				return
 			}
 
-			ch <- ListResult{Err: err}
+			send(ListResult{Err: err})
 			return
 		}
 
-		ch <- ListResult{Keys: response.Keys}
+		if !send(ListResult{Keys: response.Keys}) {
+			return
+		}
 	}
 }
 
@@ -414,7 +427,8 @@ func (c *clientImpl) List(ctx context.Context, minKeyInclusive string, maxKeyExc
 		}
 
 		go func() {
-			_ = wg.Wait(ctx)
+			// The channel can only be closed once no shard can send to it anymore
+			_ = wg.Wait(context.Background())
 			close(ch)
 		}()
 	}
